@@ -108,7 +108,7 @@ impl Mul<f64> for Duration {
         let ten: f64 = 10.0;
 
         loop {
-            if (new_val.floor() - new_val).abs() < f64::EPSILON {
+            if (new_val.trunc() - new_val).abs() < f64::EPSILON {
                 // Yay, we've found the precision of this number
                 break;
             }
